@@ -306,6 +306,60 @@ func c09TwoCalls(c *run.Ctx) {
 	})
 }
 
+// c08DefaultTable: each element the statement names as skipped by default (plus frame, which the documentation of
+// SkipElementsContent lists too), written out here rather than read from the library, really is skipped when the policy
+// does not allow it: its text and nested markup vanish, what stands before and after it stays. Alone, inside a kept
+// element, and after another skipped element; three policy bases that rely on the default table.
+func c08DefaultTable(c *run.Ctx) {
+	defaults := []string{"script", "style", "iframe", "object", "title", "noscript", "noembed", "noframes", "frameset", "nostyle"}
+	for _, sn := range []string{"ugc", "strict", "e2-default"} {
+		var b built
+		if sn == "e2-default" {
+			for _, s := range e2Specs() {
+				if s.Name == sn {
+					b = build(s)
+				}
+			}
+		} else {
+			b = build(specByName(sn))
+		}
+		keeps := sn != "strict"
+		for _, el := range defaults {
+			for vi, inner := range []string{"HIDDEN", "<b>HIDDEN</b>", "x<p>HIDDEN</p>y HIDDEN"} {
+				for wi, wrap := range [][2]string{{"", ""}, {"<p>", "</p>"}, {"<object>q</object>", ""}} {
+					if !c.Own([]byte("c08table"+sn), []byte(fmt.Sprint(el, vi, wi))) {
+						continue
+					}
+					doc := "<b>BEFORE</b>" + wrap[0] + "<" + el + ">" + inner + "</" + el + ">" + wrap[1] + "<b>AFTER</b>"
+					out, pm := San(b.P, doc)
+					c.Eval()
+					c.Transitions++
+					c.Traces++
+					c.NontrivialN++
+					before := ""
+					cs := e2Case{Spec: b.S, Doc: doc, Before: &before}
+					wantB, wantA := "BEFORE", "AFTER"
+					if keeps {
+						wantB, wantA = "<b>BEFORE</b>", "<b>AFTER</b>"
+					}
+					switch {
+					case pm != "":
+						c.Violate("panic", "Sanitize panicked: "+pm, cs)
+					case strings.Contains(out, "HIDDEN"):
+						c.Violate("default-table|"+el, fmt.Sprintf("content of disallowed <%s> (skipped by default) appears in the output; policy=%s document=%s output=%s", el, b.S.Name, run.Q(doc), run.Q(out)), cs)
+						c.Outcome("violation|default-table")
+					case !strings.Contains(out, wantB) || !strings.Contains(out, wantA):
+						c.Violate("default-table-outside|"+el, fmt.Sprintf("text outside a skipped <%s> is missing; policy=%s document=%s output=%s", el, b.S.Name, run.Q(doc), run.Q(out)), cs)
+						c.Outcome("violation|default-table")
+					default:
+						c.Outcome("default-skip-element-honoured")
+					}
+				}
+			}
+		}
+	}
+}
+
 func runE2(c *run.Ctx, prop string) {
 	specs := e2Specs()
 	depth := 3
@@ -321,6 +375,7 @@ func runE2(c *run.Ctx, prop string) {
 	}
 	if prop == "C08" {
 		c08Depth(c)
+		c08DefaultTable(c)
 	}
 	// every policy of the family is built in every shard (and in the replay), in this order, before any search starts:
 	// constructing or extending one policy must not change another (shared default tables would show here)
